@@ -64,18 +64,23 @@ Theorem C03_canonical_files : forall rc files lk o j b its fin,
     map e_pos todo = offsets 0 chunks.
 Proof. exact canonical_file_after_edit. Qed.
 
-(* THE WHOLE NEW TEXT, in message style: the bytes written are exactly the UTF-8 encoding of the canonical
+(* THE WHOLE NEW TEXT, either style: the bytes written are exactly the UTF-8 encoding of the canonical
    file with the same layout, names, arguments and other items, whose statements without a reference (configured
-   name, no ignore directive) now begin their message with `[ref: N] `, N consecutive from some c0 in file
-   order (`retoken`, Proofs/CanonicalRun.v).  No chunks, no offsets: an equation between texts. *)
+   name, no ignore directive) now carry one, N consecutive from some c0 in file order (`retoken`,
+   Proofs/CanonicalRun.v): `[ref: N] ` at the start of the message (always so in message style:
+   C03_message_style_token) or `ref = N` as first key-value (C13_canonical_rewritten says where and with which
+   delimiter).  No chunks, no offsets: an equation between texts. *)
 Theorem C03_canonical_rewritten : forall rc files lk o j b its fin,
   files <> [] -> nth_error files j = Some b ->
   utf8_decode b = Some (render_items its fin) -> items_ok its fin -> o_rfail2 o j = false ->
-  cfg_structured (rc_cfg rc) = false ->
   let new := nth_error (w_src (after rc files lk o)) j in
   new = Some b \/
   exists c0, new = Some (utf8_encode (render_items (retoken (rc_cfg rc) (render_items its fin) its [] c0) fin)).
 Proof. exact canonical_file_rewritten. Qed.
+
+Theorem C03_message_style_token : forall cfg code pre1 it e id,
+  cfg_structured cfg = false -> item_step cfg code pre1 it = Emit e -> add_ref it e id = add_token it id.
+Proof. exact add_ref_message. Qed.
 
 (* non-vacuity: info!("a");\n// x\ninfo!("[ref: 3] b");\nwarn!( "c");\n -- the model of the whole run and
    `retoken` give the same bytes, and the text is the one expected *)
@@ -115,3 +120,4 @@ Proof. vm_compute. reflexivity. Qed.
 Print Assumptions C03_insert_only.
 Print Assumptions C03_canonical_files.
 Print Assumptions C03_canonical_rewritten.
+Print Assumptions C03_message_style_token.
